@@ -26,30 +26,109 @@ for op, b in [("add", "full 64x64 bit + NaN/+-inf"), ("sub", "full 64x64 bit + N
 add("kernels", "i64_terminal::c10_i64_div_d16", ["C10"], tier="thorough", profile="full", timeout=3000,
     bounds="dividend 64 bit; divisor 16 bit (sign-extended) or i64::MIN/MAX")
 
-# ---------------------------------------------------------------- BDD step harnesses
-BDD_STEP_PROPS = ["C02", "C01", "C03", "C05", "C06", "C14"]
-for op in ["and", "or", "nand", "nor", "xor", "equiv", "imp", "imp_strict", "not"]:
-    add("bdd", "proofs::step_" + op, BDD_STEP_PROPS, timeout=900,
-        bounds="one recursion step from an arbitrary well-formed BDD: <=4 pre-existing nodes, 6 slots, 3 levels, capacity symbolic")
-    if op != "not":
-        add("bdd", "proofs::step_" + op + "_n5", BDD_STEP_PROPS, tier="thorough", timeout=2400,
-            bounds="one recursion step from an arbitrary well-formed BDD: <=5 pre-existing nodes, 6 slots, 3 levels, capacity symbolic")
+# ---------------------------------------------------------------- BDD / BCDD step harnesses
+BOOL_STEP_PROPS = ["C02", "C01", "C03", "C05", "C06", "C14"]
+BOOL_Q_PROPS = ["C04", "C01", "C03", "C05", "C06", "C14"]
+AQ_QUICK = {"bdd": {"exists_and", "forall_or", "unique_xor", "forall_imp"},
+            "bcdd": {"exists_and", "unique_nand", "forall_equiv"}}
+for kind in ["bdd", "bcdd"]:
+    CRATES[kind] = {}
+    K = kind.upper()
+    for op in ["and", "or", "nand", "nor", "xor", "equiv", "imp", "imp_strict", "not"]:
+        add(kind, "proofs::step_" + op, BOOL_STEP_PROPS, timeout=900,
+            bounds="one recursion step from an arbitrary well-formed %s: <=4 pre-existing nodes, 6 slots, 3 levels, capacity symbolic" % K)
+        if op != "not":
+            add(kind, "proofs::step_" + op + "_n5", BOOL_STEP_PROPS, tier="thorough", timeout=2400,
+                bounds="one recursion step from an arbitrary well-formed %s: <=5 pre-existing nodes, 6 slots, 3 levels, capacity symbolic" % K)
+    add(kind, "proofs::lemma_canonical", ["C01"], timeout=1500,
+        bounds="every well-formed %s with <=5 nodes over 3 levels; all pairs of edges" % K)
+    add(kind, "proofs::step_ite", BOOL_STEP_PROPS, timeout=1800,
+        bounds="one recursion step of ite: <=3 pre-existing nodes, 6 slots, 3 levels")
+    add(kind, "proofs::step_ite_n4", BOOL_STEP_PROPS, tier="thorough", timeout=3600, mem_gb=16, mem_reserve=12,
+        bounds="one recursion step of ite: <=4 pre-existing nodes, 6 slots, 3 levels")
+    add(kind, "proofs::step_restrict", ["XRESTRICT"], timeout=1800,
+        bounds="one recursion step of restrict: <=4 nodes, 3 levels, literal cube with <=2 literals")
+    add(kind, "proofs::step_restrict_l3", ["XRESTRICT"], tier="thorough", timeout=3000,
+        bounds="one recursion step of restrict: <=4 nodes, 3 levels, literal cube with <=3 literals")
+    for op in ["forall", "exists", "unique"]:
+        add(kind, "proofs::step_" + op, BOOL_Q_PROPS, timeout=1800,
+            bounds="one recursion step: <=4 pre-existing nodes, 6 slots, 3 levels; variable set = any positive cube edge")
+        add(kind, "proofs::step_" + op + "_n5", BOOL_Q_PROPS, tier="thorough", timeout=3000,
+            bounds="one recursion step: <=5 pre-existing nodes, 6 slots, 3 levels; variable set = any positive cube edge")
+    for vs in ["v0"]:
+        add(kind, "proofs::step_substitute_" + vs, BOOL_Q_PROPS, timeout=2400, mem_reserve=10, mem_gb=14,
+            bounds="substitute_prepare (real) + one recursion step of substitute: replaced variable(s) %s (concrete), arbitrary replacement functions, <=3 pre-existing nodes, 3 levels, identity order, arbitrary substitution id" % vs)
+    for q in ["forall", "exists", "unique"]:
+        for o in ["and", "or", "nand", "nor", "xor", "equiv", "imp", "imp_strict"]:
+            nm = q + "_" + o
+            add(kind, "proofs::step_apply_" + nm, BOOL_Q_PROPS, tier="quick" if nm in AQ_QUICK[kind] else "thorough", timeout=2400, mem_reserve=12, mem_gb=14,
+                bounds="one recursion step of apply_%s(%s): <=3 pre-existing nodes, 6 slots, 3 levels" % (q, o))
 
+# ---------------------------------------------------------------- ZBDD
+CRATES["zbdd"] = {}
+ZB = "one recursion step from an arbitrary well-formed ZBDD: tautology chain (3 nodes, built by the real ZBDDCache code) + <=3 symbolic nodes, 8 slots, 3 levels, capacity symbolic"
+for op in ["union", "intsec", "diff"]:
+    add("zbdd", "proofs::step_" + op, ["C09", "C01", "C03", "C05", "C06", "C14"], timeout=1500, bounds=ZB)
+for op in ["subset0", "subset1", "change"]:
+    add("zbdd", "proofs::step_" + op, ["C09", "C01", "C03", "C05", "C06", "C14"], timeout=1500, bounds=ZB + "; arbitrary variable order")
+for op in ["and", "or", "xor", "nand", "nor", "equiv", "imp", "imp_strict", "not", "ite"]:
+    add("zbdd", "proofs::step_" + op, ["C02", "C09", "C01", "C03", "C05", "C06", "C14"], timeout=1800, bounds=ZB)
+add("zbdd", "proofs::base_constructors", ["C09", "C02", "C03"], timeout=1500,
+    bounds="empty/base/f/t, singleton, var, make_node on an arbitrary ZBDD with <=2 symbolic nodes, arbitrary variable order")
+add("zbdd", "proofs::lemma_canonical", ["C01"], timeout=1500, bounds="every well-formed ZBDD: tautology chain + <=4 nodes over 3 levels")
 
-add("bdd", "proofs::lemma_canonical", ["C01"], timeout=1500,
-    bounds="every well-formed BDD with <=5 nodes over 3 levels; all pairs of edges")
-add("bdd", "proofs::step_ite", BDD_STEP_PROPS, timeout=1500,
-    bounds="one recursion step of ite: <=4 pre-existing nodes, 6 slots, 3 levels")
-BDD_Q_PROPS = ["C04", "C01", "C03", "C05", "C06", "C14"]
-for op in ["restrict", "forall", "exists", "unique"]:
-    add("bdd", "proofs::step_" + op, BDD_Q_PROPS, timeout=1500,
-        bounds="one recursion step: <=5 nodes + 1 free slot, 3 levels; variable set / literal cube = any cube edge")
-AQ_QUICK = {"exists_and", "forall_or", "unique_xor", "forall_imp", "exists_imp_strict", "unique_nand"}
-for q in ["forall", "exists", "unique"]:
-    for o in ["and", "or", "nand", "nor", "xor", "equiv", "imp", "imp_strict"]:
-        nm = q + "_" + o
-        add("bdd", "proofs::step_apply_" + nm, BDD_Q_PROPS, tier="quick" if nm in AQ_QUICK else "thorough", timeout=2400,
-            bounds="one recursion step of apply_%s(%s): <=4 pre-existing nodes, 6 slots, 3 levels" % (q, o))
+# ---------------------------------------------------------------- MTBDD lifting (C10b)
+CRATES["mtbdd"] = {}
+MB = "one recursion step from an arbitrary well-formed MTBDD: <=3 pre-existing nodes, 6 slots, 2 levels, terminal table with <=3 symbolic distinct values and symbolic capacity; terminal algebra = 8-bit instance of the I64 algebra (the lifting is independent of the operand width)"
+for op in ["add", "sub", "mul", "div", "min", "max", "ite"]:
+    add("mtbdd", "proofs::step_" + op, ["C10", "C01", "C03", "C05", "C06", "C14"], timeout=1800, bounds=MB)
+add("mtbdd", "proofs::base_constant_var", ["C10", "C03", "C05", "C14"], timeout=900, bounds="constant(v) and var(v) on an arbitrary MTBDD with <=2 nodes")
+
+# ---------------------------------------------------------------- TDD (C11)
+CRATES["tdd"] = {}
+TB = "one recursion step from an arbitrary well-formed TDD: <=3 pre-existing ternary nodes, 6 slots, 2 levels (9 three-valued assignments), capacity symbolic"
+for op in ["and", "or", "nand", "nor", "xor", "equiv", "imp", "imp_strict", "not", "ite"]:
+    add("tdd", "proofs::step_" + op, ["C11", "C01", "C03", "C05", "C06", "C14"], timeout=1800, mem_reserve=6,
+        bounds=TB.replace("<=3 pre-existing", "<=2 pre-existing") if op not in ("not",) else TB)
+    if op not in ("not", "ite"):
+        add("tdd", "proofs::step_" + op + "_n3", ["C11", "C01", "C03", "C05", "C06", "C14"], tier="thorough", timeout=3000, mem_reserve=8, bounds=TB)
+add("tdd", "proofs::base_constants_var_eval", ["C11", "C03"], timeout=900, bounds="constants f/t/u (edge and handle level), var, cofactors on an arbitrary TDD with <=3 nodes")
+
+# ---------------------------------------------------------------- C17 RawTable
+CRATES["hashtbl"] = {}
+HB = "one operation on an arbitrary 16-slot RawTable<u8,u32> satisfying the representation invariant; key universe 4 keys with arbitrary 64-bit hashes (all collision patterns, wrap-around clusters, any tombstone layout)"
+for hn in ["step_find_get", "step_insert_free5", "step_insert_free12", "step_remove"]:
+    add("hashtbl", "proofs::" + hn, ["C17"], profile="full", timeout=2400, bounds=HB)
+
+# ---------------------------------------------------------------- C06 DMApplyCache
+for cap in [1, 2, 4]:
+    add("bdd", "cache_proofs::cache_seq3_cap%d" % cap, ["C06"], profile="full", timeout=1800,
+        bounds="real DMApplyCache<_, BDDOp, SymHasher, 5>, capacity %d (concrete), 3 arbitrary insertions + 1 arbitrary lookup; keys: 2 operators, 1..3 edge operands (4 ids), 0..1 numeric operands; hash = symbolic affine function" % cap)
+add("bdd", "cache_proofs::cache_gc_bracket", ["C06"], profile="full", timeout=1800,
+    bounds="real DMApplyCache, capacity 2: add; pre_gc; get/add; post_gc; get/add; clear; get with arbitrary keys")
+
+# ---------------------------------------------------------------- C12 Natural
+for hn, b in [("from_u128_roundtrip", "every u128"), ("from_u64_roundtrip", "every u64"), ("cmp_eq", "every pair of u128"),
+              ("shift", "every u128, shift 0..127"), ("exp_overflow", "every non-zero u64, shift by u64::MAX"),
+              ("clone_inline", "every pair of u64 (inline representation)")]:
+    add("kernels", "natural::c12_natural_" + hn, ["C12"], profile="full", timeout=1800, bounds="Natural: " + b + " (mantissa <= 2 digits)")
+
+# ---------------------------------------------------------------- C13 cube picking
+for kind in ["bdd", "bcdd", "zbdd"]:
+    for hn in ["base_pick_cube", "base_pick_cube_dd", "base_pick_cube_dd_set"]:
+        add(kind, "proofs::" + hn, ["C13", "C03", "C05", "C14"] if hn != "base_pick_cube" else ["C13"], timeout=1800,
+            bounds="whole (linear) recursion on an arbitrary well-formed %s with <=4 nodes over 3 levels; arbitrary choice vector / literal cube; symbolic capacity" % kind.upper())
+
+# ---------------------------------------------------------------- modelling probes (guard against a known CBMC pitfall)
+for kind in ["bdd", "bcdd", "zbdd", "mtbdd", "tdd"]:
+    add(kind, "proofs::probe_child0_by_ref", ["C01", "C03"], timeout=900, bounds="modelling probe: symbolic node index, first child by reference")
+
+# ---------------------------------------------------------------- C08 order computation
+CRATES["reorder"] = {}
+for k in range(5):
+    add("reorder", "proofs::sort_order_k%d" % k, ["C08"], profile="full", timeout=1800, mem_reserve=6,
+        bounds="real sort_order + MinSegTree: 4 levels, every partial order naming %d distinct levels; minimality against an arbitrary competing permutation" % k)
+add("reorder", "proofs::bubble_sort_4", ["C08"], profile="full", timeout=1800, bounds="real bubble_sort on every permutation of 4 levels")
 
 STEP_NOTE = ("trusted: Kani/CBMC; the stub manager KManager (array-backed, implements the documented Manager/LevelView contract) and "
              "the ghost truth tables; sub-calls of the recursion are answered by an oracle apply-cache constrained only by the "
@@ -118,9 +197,29 @@ NOT_APPLICABLE = {
 }
 
 
+# Step harnesses serve several properties at once. For the property a harness is primarily
+# about (first entry of props) it runs in that property's quick tier; for the other
+# properties only a representative core set runs in the quick tier (all of them in thorough).
+CORE = {
+    "bdd": {"step_and", "step_xor", "step_not", "step_ite", "step_exists", "step_apply_exists_and", "base_pick_cube_dd", "probe_child0_by_ref", "lemma_canonical"},
+    "bcdd": {"step_and", "step_xor", "step_ite", "step_forall", "step_apply_unique_nand", "base_pick_cube_dd_set", "probe_child0_by_ref", "lemma_canonical"},
+    "zbdd": {"step_union", "step_diff", "step_change", "step_not", "probe_child0_by_ref", "lemma_canonical"},
+    "mtbdd": {"step_add", "step_min", "base_constant_var", "probe_child0_by_ref"},
+    "tdd": {"step_and", "step_ite", "probe_child0_by_ref"},
+}
+
+
 def select(pid, tier):
     out = []
     for h in H:
-        if pid in h["props"] and (tier == "thorough" or h["tier"] == "quick"):
+        if pid not in h["props"]:
+            continue
+        if tier == "thorough":
+            out.append(dict(h))
+            continue
+        if h["tier"] != "quick":
+            continue
+        short = h["name"].split("::")[-1]
+        if h["props"][0] == pid or h["crate"] not in CORE or short in CORE[h["crate"]]:
             out.append(dict(h))
     return out
